@@ -447,7 +447,7 @@ func run(r *enumx.Run, replay *enumx.ReplayCase) {
 	if r.Thorough() {
 		lenBound = 150
 	}
-	r.Rule(fmt.Sprintf("explicit-state BFS on the real ring.Buffered[int] against a plain slice queue for NewBuffered(initial 0..5, buffer 0..5): alphabet AppendBack(fresh value), RemoveFront (non-empty only), Front, Len, Range stopping after k = 1..len+1 elements; search to the FIXPOINT of canonical states with queue length <= %d (>= the property's sequence length 60, so no sequence of <= 60 operations leaves the bounded region; the designed bound 3*bsize+4 is subsumed); canonical key = reference queue length + the complete real state (capacity, end, bsize, every slot as nil / queue rank / stale, next/prev consistency) read by an in-package accessor; successors by replaying the shortest history on a fresh object plus one operation. Then every grow/shrink cycle (fill to P in 1..3*bsize+4, drain to Q in 0..P-1, repeat; %d mutating operations, plus the 0->60->0 sweep) on one long-lived object, every non-mutating operation after every step, and every walk state is looked up in the fixpoint set. evaluations = operations executed on the real object and compared; all are non-trivial (distinct (canonical state, operation) pairs in the BFS).", lenBound, walkSteps))
+	r.Rule(fmt.Sprintf("explicit-state BFS on the real ring.Buffered[int] against a plain slice queue for NewBuffered(initial 0..5, buffer 0..5): alphabet AppendBack(fresh value), RemoveFront (non-empty only), Front, Len, Range stopping after k = 1..len+1 elements; search to the FIXPOINT of canonical states with queue length <= %d (>= the property's sequence length 60, so no sequence of <= 60 operations leaves the bounded region; the designed bound 3*bsize+4 is subsumed); canonical key = reference queue length + the complete real state (capacity, end, bsize, every slot as nil / queue rank / stale, next/prev consistency) read by an in-package accessor; successors by replaying the shortest history on a fresh object plus one operation. Then every grow/shrink cycle (fill to P in 1..3*bsize+4, drain to Q in 0..P-1, repeat; %d mutating operations, plus the 0->60->0 sweep) on one long-lived object, every non-mutating operation after every step, and every walk state is looked up in the fixpoint set. evaluations = operations executed on the real object and compared; distinct non-trivial = the BFS transitions (distinct (canonical state, operation) pairs); the walk transitions revisit those pairs on long-lived objects and are not counted as distinct.", lenBound, walkSteps))
 	type cfg struct{ isz, bsz int }
 	var cfgs []cfg
 	for b := 5; b >= 0; b-- { // largest first for load balance
@@ -496,7 +496,7 @@ func run(r *enumx.Run, replay *enumx.ReplayCase) {
 			maxCap = res.maxCap
 		}
 		perCfg[fmt.Sprintf("%d,%d", res.isz, res.bsz)] = res.states
-		r.Count(res.trans+res.walkTrans, res.nt+res.walkTrans)
+		r.Count(res.trans+res.walkTrans, res.nt)
 		for _, v := range res.viols {
 			r.Violation(v.key, v.msg, v.c)
 		}
